@@ -65,7 +65,8 @@ Fixpoint no_adjacent_singles (ws : list str) : bool :=
 (* field names whose Go struct tag is the schema name again *)
 Definition go_tag_ok (s : str) : bool := is_lower_snake s && no_adjacent_singles (words s).
 
-(* a name prefix as documented ("my_prefix_"): ([a-z]+_)+ ; the empty prefix is allowed *)
+(* a name prefix as documented ("my_prefix_"): ([a-z]+_)+ without two adjacent one-letter
+   words; the empty prefix is allowed *)
 Fixpoint prefix_ok (ws : list str) : bool :=
   match ws with
   | [] => false
@@ -75,7 +76,7 @@ Fixpoint prefix_ok (ws : list str) : bool :=
 Definition is_prefix (p : str) : bool :=
   match p with
   | [] => true
-  | _ => prefix_ok (words p)
+  | _ => prefix_ok (words p) && no_adjacent_singles (words p)
   end.
 Definition prefix_words (p : str) : list str := removelast (words p).
 
